@@ -41,9 +41,11 @@ def hexOfNat (width : Nat) (n : Nat) : String :=
 
 /-- floats cross the protocol as the 16 hex digits of their IEEE-754 bits -/
 def floatOfHex? (s : String) : Option Float :=
-  if s.length = 16 then (natOfHex? s).map fun n => Float.ofBits (UInt64.ofNat n) else none
+  if s == "nan" then some (0.0 / 0.0)
+  else if s.length = 16 then (natOfHex? s).map fun n => Float.ofBits (UInt64.ofNat n) else none
 
-def hexOfFloat (f : Float) : String := hexOfNat 16 f.toBits.toNat
+/-- NaN payloads are not compared: every NaN is written "nan" -/
+def hexOfFloat (f : Float) : String := if f.isNaN then "nan" else hexOfNat 16 f.toBits.toNat
 
 def stringOfHex? (s : String) : Option String :=
   (bytesOfHex s).bind fun bs => String.fromUTF8? (ByteArray.mk bs.toArray)
